@@ -25,6 +25,7 @@ RULE = (
     "-09:30, +08:00, +05:45): ems.to_netcdf then reopen gives the same convention, equal polygons, "
     "bitwise equal variables, equal time instants, and the raw file carries _FillValue exactly on the "
     "variables that had one.  Non-trivial: negative, single-digit-hour or fractional-hour offsets."
+    ' Also: integer time encodings whose unit does not divide the time steps.'
 )
 LEVEL_TEXT = ("every (period, epoch, 15-minute UTC offset, spelling) combination of the stated product through "
               "format_time_units_for_ems, with an independent parser and cftime as consumer; save/reopen round trips "
